@@ -585,6 +585,12 @@ impl Node {
         &self.cookie
     }
 
+    /// Number of remote calls still waiting for their reply (verification builds only).
+    #[cfg(edp_verif)]
+    pub fn pending_rpc_count(&self) -> usize {
+        self.pending_rpcs.len()
+    }
+
     pub async fn rpc_call(
         &self,
         remote_node: &str,
